@@ -6,8 +6,8 @@ verus! {
 
 /// two heaps agree on every non-free slot except possibly `x` (free slots may change their links)
 pub open spec fn same_used_except(w: HeapW, w2: HeapW, x: nat) -> bool {
-    forall|o: nat| o != x ==> {
-        &&& (#[trigger] w2.slots.dom().contains(o) && !(w2.slots[o].c is Free)) == (w.slots.dom().contains(o) && !(w.slots[o].c is Free))
+    forall|o: nat| #![trigger w2.slots.dom().contains(o)] #![trigger w.slots.dom().contains(o)] o != x ==> {
+        &&& (w2.slots.dom().contains(o) && !(w2.slots[o].c is Free)) == (w.slots.dom().contains(o) && !(w.slots[o].c is Free))
         &&& (w.slots.dom().contains(o) && !(w.slots[o].c is Free) ==> w2.slots[o] == w.slots[o])
     }
 }
@@ -74,8 +74,8 @@ pub proof fn lemma_same_used_trans(w1: HeapW, w2: HeapW, w3: HeapW, x: nat, y: n
                    && (w1.slots.dom().contains(x) && !(w1.slots[x].c is Free) ==> w3.slots[x] == w1.slots[x]))
     ensures same_used_except(w1, w3, y)
 {
-    assert forall|o: nat| o != y implies {
-        &&& (#[trigger] w3.slots.dom().contains(o) && !(w3.slots[o].c is Free)) == (w1.slots.dom().contains(o) && !(w1.slots[o].c is Free))
+    assert forall|o: nat| #![trigger w3.slots.dom().contains(o)] #![trigger w1.slots.dom().contains(o)] o != y implies {
+        &&& (w3.slots.dom().contains(o) && !(w3.slots[o].c is Free)) == (w1.slots.dom().contains(o) && !(w1.slots[o].c is Free))
         &&& (w1.slots.dom().contains(o) && !(w1.slots[o].c is Free) ==> w3.slots[o] == w1.slots[o])
     } by {
         if o != x { assert(w2.slots.dom().contains(o) || !w2.slots.dom().contains(o)); }
@@ -341,4 +341,315 @@ pub proof fn lemma_map_add(m: MapB, m2: MapB, w: MapW, kw2: HeapW, vw2: HeapW, k
     }
 }
 
+} // verus!
+
+verus! {
+/// two heaps agree on every non-free slot except possibly `x` and `y`
+pub open spec fn same_used_except2(w: HeapW, w2: HeapW, x: nat, y: nat) -> bool {
+    forall|o: nat| #![trigger w2.slots.dom().contains(o)] #![trigger w.slots.dom().contains(o)] o != x && o != y ==> {
+        &&& (w2.slots.dom().contains(o) && !(w2.slots[o].c is Free)) == (w.slots.dom().contains(o) && !(w.slots[o].c is Free))
+        &&& (w.slots.dom().contains(o) && !(w.slots[o].c is Free) ==> w2.slots[o] == w.slots[o])
+    }
+}
+pub proof fn lemma_sue_compose(w1: HeapW, w2: HeapW, w3: HeapW, x: nat, y: nat)
+    requires same_used_except(w1, w2, x), same_used_except(w2, w3, y)
+    ensures same_used_except2(w1, w3, x, y)
+{
+    assert forall|o: nat| #![trigger w3.slots.dom().contains(o)] #![trigger w1.slots.dom().contains(o)] o != x && o != y implies {
+        &&& (w3.slots.dom().contains(o) && !(w3.slots[o].c is Free)) == (w1.slots.dom().contains(o) && !(w1.slots[o].c is Free))
+        &&& (w1.slots.dom().contains(o) && !(w1.slots[o].c is Free) ==> w3.slots[o] == w1.slots[o])
+    } by {
+        assert(w2.slots.dom().contains(o) || !w2.slots.dom().contains(o));
+    }
+}
+
+/// the value of the entry whose key record is `ko` is replaced (possibly in another value slot); the key record keeps its place
+pub proof fn lemma_map_update(m: MapB, m2: MapB, w: MapW, kw2: HeapW, vw2: HeapW, ko: nat, voff2: nat, value: Seq<u8>)
+    requires
+        map_ok(m, w), is_key(w.kw, ko), m2.n == m.n, m2.kpm == m.kpm, m2.vpm == m.vpm, m2.hb == m.hb,
+        heap_ok(m2.kb, m2.kpm, kw2), heap_ok(m2.vb, m2.vpm, vw2),
+        same_used_except(w.kw, kw2, ko), is_key(kw2, ko),
+        kkey(kw2, ko) == kkey(w.kw, ko), knext(kw2, ko) == knext(w.kw, ko), kvoff(kw2, ko) == voff2,
+        same_used_except2(w.vw, vw2, kvoff(w.kw, ko), voff2), is_val(vw2, voff2), vval(vw2, voff2) == value,
+        voff2 != kvoff(w.kw, ko) ==> vw2.slots.dom().contains(kvoff(w.kw, ko)) && vw2.slots[kvoff(w.kw, ko)].c is Free && !is_val(w.vw, voff2),
+    ensures ({
+        let w2 = MapW { kw: kw2, vw: vw2, cs: w.cs, vown: w.vown.remove(kvoff(w.kw, ko)).insert(voff2, ko) };
+        map_ok(m2, w2) && is_insert(w, w2, kkey(w.kw, ko), value)
+    })
+{
+    let voff = kvoff(w.kw, ko);
+    let key = kkey(w.kw, ko);
+    let w2 = MapW { kw: kw2, vw: vw2, cs: w.cs, vown: w.vown.remove(voff).insert(voff2, ko) };
+    lemma_val_link(w.kw, w.vw, w.vown, ko);
+    assert forall|o: nat| #![trigger is_key(w.kw, o)] is_key(w.kw, o) && o != ko implies is_key(kw2, o) && kw2.slots[o] == w.kw.slots[o] by {
+        assert(w.kw.slots.dom().contains(o) && !(w.kw.slots[o].c is Free));
+        assert(kw2.slots.dom().contains(o));
+    }
+    assert forall|o: nat| #![trigger is_key(kw2, o)] is_key(kw2, o) && o != ko implies is_key(w.kw, o) && kw2.slots[o] == w.kw.slots[o] by {
+        assert(kw2.slots.dom().contains(o) && !(kw2.slots[o].c is Free));
+    }
+    assert forall|v: nat| #![trigger is_val(w.vw, v)] is_val(w.vw, v) && v != voff && v != voff2 implies is_val(vw2, v) && vw2.slots[v] == w.vw.slots[v] by {
+        assert(w.vw.slots.dom().contains(v) && !(w.vw.slots[v].c is Free));
+        assert(vw2.slots.dom().contains(v));
+    }
+    assert forall|v: nat| #![trigger is_val(vw2, v)] is_val(vw2, v) && v != voff && v != voff2 implies is_val(w.vw, v) && vw2.slots[v] == w.vw.slots[v] by {
+        assert(vw2.slots.dom().contains(v) && !(vw2.slots[v].c is Free));
+    }
+    assert(kinds_ok(kw2, vw2)) by {
+        reveal(kinds_ok);
+        assert forall|o: nat| #[trigger] kw2.slots.dom().contains(o) implies kw2.slots[o].c is Key || kw2.slots[o].c is Free by {
+            if o != ko && !(kw2.slots[o].c is Free) { assert(w.kw.slots.dom().contains(o)); }
+        }
+        assert forall|o: nat| #[trigger] vw2.slots.dom().contains(o) implies vw2.slots[o].c is Val || vw2.slots[o].c is Free by {
+            if o != voff && o != voff2 && !(vw2.slots[o].c is Free) { assert(w.vw.slots.dom().contains(o)); }
+
+        }
+    }
+    assert forall|j: int| 0 <= j < m.n implies #[trigger] chain_ok(kw2, bucket(m2.hb, j), w2.cs[j], j, m.n) by {
+        assert(chain_ok(w.kw, bucket(m.hb, j), w.cs[j], j, m.n));
+        lemma_chain_same_links(w.kw, kw2, bucket(m.hb, j), w.cs[j], j, m.n, ko);
+    }
+    assert(all_on_chains(kw2, m.n, w2.cs)) by {
+        reveal(all_on_chains);
+        assert forall|o: nat| #[trigger] is_key(kw2, o) implies w2.cs[bucket_of(kkey(kw2, o), m.n)].contains(o) by {
+            assert(is_key(w.kw, o));
+        }
+    }
+    assert(keys_distinct(kw2)) by {
+        reveal(keys_distinct);
+        assert forall|o1: nat, o2: nat| #[trigger] is_key(kw2, o1) && #[trigger] is_key(kw2, o2) && o1 != o2 implies kkey(kw2, o1) != kkey(kw2, o2) by {
+            assert(is_key(w.kw, o1) && is_key(w.kw, o2));
+        }
+    }
+    assert(vals_linked(kw2, vw2, w2.vown)) by {
+        reveal(vals_linked);
+        assert forall|o: nat| #![trigger is_key(kw2, o)] is_key(kw2, o) implies is_val(vw2, kvoff(kw2, o)) && w2.vown[kvoff(kw2, o)] == o by {
+            if o != ko {
+                assert(is_key(w.kw, o));
+                assert(is_val(w.vw, kvoff(w.kw, o)) && w.vown[kvoff(w.kw, o)] == o);
+                assert(kvoff(w.kw, o) != voff);
+            }
+        }
+        assert forall|v: nat| #![trigger is_val(vw2, v)] is_val(vw2, v) implies is_key(kw2, w2.vown[v]) && kvoff(kw2, w2.vown[v]) == v by {
+            if v != voff2 {
+                assert(v != voff);
+                assert(is_val(w.vw, v));
+                assert(is_key(w.kw, w.vown[v]) && kvoff(w.kw, w.vown[v]) == v);
+                assert(w.vown[v] != ko);
+            }
+        }
+    }
+    assert(map_ok(m2, w2));
+    assert forall|k2: Seq<u8>| #[trigger] lookup(w2, k2) == (if k2 == key { Some(value) } else { lookup(w, k2) }) by {
+        if k2 == key {
+            lemma_lookup_found(m2, w2, key, ko);
+        } else if has_key(w, k2) {
+            let o = rec_of(w, k2);
+            assert(is_key(w.kw, o) && kkey(w.kw, o) == k2);
+            assert(o != ko);
+            assert(is_key(kw2, o));
+            lemma_lookup_found(m2, w2, k2, o);
+            lemma_val_link(w.kw, w.vw, w.vown, o);
+            assert(kvoff(w.kw, o) != voff);
+            if kvoff(w.kw, o) == voff2 { assert(voff2 != voff); }
+        } else {
+            if has_key(w2, k2) {
+                let o = rec_of(w2, k2);
+                assert(is_key(kw2, o) && kkey(kw2, o) == k2);
+                assert(is_key(w.kw, o));
+            }
+        }
+    }
+}
+
+/// a chain survives when one member keeps its key and link (its value offset may change) and all other members are untouched
+pub proof fn lemma_chain_same_links(kw: HeapW, kw2: HeapW, head: nat, s: Seq<nat>, b: int, n: int, ko: nat)
+    requires chain_ok(kw, head, s, b, n), same_used_except(kw, kw2, ko),
+        is_key(kw, ko) ==> is_key(kw2, ko) && kkey(kw2, ko) == kkey(kw, ko) && knext(kw2, ko) == knext(kw, ko),
+    ensures chain_ok(kw2, head, s, b, n)
+{
+    reveal(chain_ok);
+    assert forall|i: int| 0 <= i < s.len() implies {
+        &&& #[trigger] is_key(kw2, s[i])
+        &&& s[i] != 0
+        &&& knext(kw2, s[i]) == nxt(s, i)
+        &&& bucket_of(kkey(kw2, s[i]), n) == b
+    } by {
+        assert(is_key(kw, s[i]));
+        if s[i] != ko {
+            assert(kw.slots.dom().contains(s[i]) && !(kw.slots[s[i]].c is Free));
+            assert(kw2.slots.dom().contains(s[i]));
+        }
+    }
+}
+} // verus!
+
+verus! {
+pub proof fn lemma_total_ge(cs: Seq<Seq<nat>>, b: int)
+    requires 0 <= b < cs.len()
+    ensures total(cs) >= cs[b].len()
+    decreases cs.len()
+{
+    if b < cs.len() - 1 { lemma_total_ge(cs.drop_last(), b); }
+}
+
+/// the entry whose key record is chain member i of its bucket is removed; both records are freed
+pub proof fn lemma_map_del(m: MapB, m2: MapB, w: MapW, kw2: HeapW, vw2: HeapW, ko: nat, i: int)
+    requires
+        map_ok(m, w), is_key(w.kw, ko), m2.n == m.n, m2.kpm == m.kpm, m2.vpm == m.vpm,
+        0 <= i < w.cs[bucket_of(kkey(w.kw, ko), m.n)].len(), w.cs[bucket_of(kkey(w.kw, ko), m.n)][i] == ko,
+        heap_ok(m2.kb, m2.kpm, kw2), heap_ok(m2.vb, m2.vpm, vw2),
+        same_used_except2(w.kw, kw2, ko, prev_of(w.cs[bucket_of(kkey(w.kw, ko), m.n)], i)),
+        kw2.slots.dom().contains(ko) && kw2.slots[ko].c is Free,
+        i > 0 ==> ({
+            let p = prev_of(w.cs[bucket_of(kkey(w.kw, ko), m.n)], i);
+            is_key(kw2, p) && kkey(kw2, p) == kkey(w.kw, p) && kvoff(kw2, p) == kvoff(w.kw, p) && knext(kw2, p) == knext(w.kw, ko)
+        }),
+        same_used_except(w.vw, vw2, kvoff(w.kw, ko)), vw2.slots.dom().contains(kvoff(w.kw, ko)) && vw2.slots[kvoff(w.kw, ko)].c is Free,
+        htx_wf(m2.hb, m2.n),
+        bucket(m2.hb, bucket_of(kkey(w.kw, ko), m.n)) == (if i == 0 { knext(w.kw, ko) } else { bucket(m.hb, bucket_of(kkey(w.kw, ko), m.n)) }),
+        forall|j: int| 0 <= j < m.n && j != bucket_of(kkey(w.kw, ko), m.n) ==> #[trigger] bucket(m2.hb, j) == bucket(m.hb, j),
+        htx_count(m.hb) > 0 ==> htx_count(m2.hb) == htx_count(m.hb) - 1,
+        htx_count(m.hb) == 0 ==> htx_count(m2.hb) == 0,
+    ensures ({
+        let b = bucket_of(kkey(w.kw, ko), m.n);
+        let w2 = MapW { kw: kw2, vw: vw2, cs: w.cs.update(b, rm(w.cs[b], i)), vown: w.vown.remove(kvoff(w.kw, ko)) };
+        map_ok(m2, w2) && is_remove(w, w2, kkey(w.kw, ko))
+    })
+{
+    let key = kkey(w.kw, ko);
+    let b = bucket_of(key, m.n);
+    let s = w.cs[b];
+    let voff = kvoff(w.kw, ko);
+    let p = prev_of(s, i);
+    let w2 = MapW { kw: kw2, vw: vw2, cs: w.cs.update(b, rm(s, i)), vown: w.vown.remove(voff) };
+    lemma_bucket_range(key, m.n);
+    lemma_val_link(w.kw, w.vw, w.vown, ko);
+    assert(chain_ok(w.kw, bucket(m.hb, b), s, b, m.n));
+    lemma_chain_member(w.kw, bucket(m.hb, b), s, b, m.n, i);
+    if i > 0 { lemma_chain_member(w.kw, bucket(m.hb, b), s, b, m.n, i - 1); }
+    // slot 0 is never a slot
+    if w.kw.slots.dom().contains(0) { assert(slot_ok(m.kb, 0, w.kw.slots[0])); lemma_slot_bounds(m.kb, 0, w.kw.slots[0]); }
+    if kw2.slots.dom().contains(0) { assert(slot_ok(m2.kb, 0, kw2.slots[0])); lemma_slot_bounds(m2.kb, 0, kw2.slots[0]); }
+    assert forall|o: nat| #![trigger is_key(w.kw, o)] is_key(w.kw, o) && o != ko implies is_key(kw2, o) && kkey(kw2, o) == kkey(w.kw, o) && kvoff(kw2, o) == kvoff(w.kw, o) by {
+        if o != p {
+            assert(w.kw.slots.dom().contains(o) && !(w.kw.slots[o].c is Free));
+            assert(kw2.slots.dom().contains(o));
+        }
+    }
+    assert forall|o: nat| #![trigger is_key(kw2, o)] is_key(kw2, o) implies is_key(w.kw, o) && o != ko && kkey(kw2, o) == kkey(w.kw, o) && kvoff(kw2, o) == kvoff(w.kw, o) by {
+        if o != p {
+            assert(kw2.slots.dom().contains(o) && !(kw2.slots[o].c is Free));
+        }
+    }
+    assert forall|o: nat| #![trigger kw2.slots[o]] is_key(w.kw, o) && o != ko && o != p implies kw2.slots[o] == w.kw.slots[o] by {
+        assert(w.kw.slots.dom().contains(o) && !(w.kw.slots[o].c is Free));
+        assert(kw2.slots.dom().contains(o));
+    }
+    assert forall|v: nat| #![trigger is_val(w.vw, v)] is_val(w.vw, v) && v != voff implies is_val(vw2, v) && vw2.slots[v] == w.vw.slots[v] by {
+        assert(w.vw.slots.dom().contains(v) && !(w.vw.slots[v].c is Free));
+        assert(vw2.slots.dom().contains(v));
+    }
+    assert forall|v: nat| #![trigger is_val(vw2, v)] is_val(vw2, v) implies is_val(w.vw, v) && vw2.slots[v] == w.vw.slots[v] && v != voff by {
+        assert(vw2.slots.dom().contains(v) && !(vw2.slots[v].c is Free));
+    }
+    assert(kinds_ok(kw2, vw2)) by {
+        reveal(kinds_ok);
+        assert forall|o: nat| #[trigger] kw2.slots.dom().contains(o) implies kw2.slots[o].c is Key || kw2.slots[o].c is Free by {
+            if o != ko && o != p && !(kw2.slots[o].c is Free) { assert(w.kw.slots.dom().contains(o)); lemma_kinds(w.kw, w.vw, o); }
+            if o == p && i > 0 { assert(is_key(kw2, p)); }
+        }
+        assert forall|o: nat| #[trigger] vw2.slots.dom().contains(o) implies vw2.slots[o].c is Val || vw2.slots[o].c is Free by {
+            if o != voff && !(vw2.slots[o].c is Free) { assert(w.vw.slots.dom().contains(o)); lemma_kinds(w.kw, w.vw, o); }
+        }
+    }
+    // chains
+    assert forall|j: int| 0 <= j < m.n implies #[trigger] chain_ok(kw2, bucket(m2.hb, j), w2.cs[j], j, m.n) by {
+        assert(chain_ok(w.kw, bucket(m.hb, j), w.cs[j], j, m.n));
+        let sj = w.cs[j];
+        if j == b {
+            assert forall|t: int| 0 <= t < s.len() && t != i && t != i - 1 implies #[trigger] is_key(kw2, s[t]) by { lemma_chain_member(w.kw, bucket(m.hb, b), s, b, m.n, t); }
+            assert forall|t: int| 0 <= t < s.len() && t != i && t != i - 1 implies kw2.slots[#[trigger] s[t]] == w.kw.slots[s[t]] by { lemma_chain_member(w.kw, bucket(m.hb, b), s, b, m.n, t); }
+            lemma_chain_remove(w.kw, kw2, bucket(m.hb, b), s, b, m.n, i);
+            lemma_chain_head(w.kw, bucket(m.hb, b), s, b, m.n);
+        } else {
+            // members of other chains hash elsewhere, so they are neither ko nor p
+            assert forall|t: int| 0 <= t < sj.len() implies #[trigger] is_key(kw2, sj[t]) by {
+                lemma_chain_member(w.kw, bucket(m.hb, j), sj, j, m.n, t);
+                if i > 0 && sj[t] == p { assert(bucket_of(kkey(w.kw, p), m.n) == b); }
+            }
+            assert forall|t: int| 0 <= t < sj.len() implies kw2.slots[#[trigger] sj[t]] == w.kw.slots[sj[t]] by {
+                lemma_chain_member(w.kw, bucket(m.hb, j), sj, j, m.n, t);
+                if i > 0 && sj[t] == p { assert(bucket_of(kkey(w.kw, p), m.n) == b); }
+            }
+            lemma_chain_frame(w.kw, kw2, bucket(m.hb, j), sj, j, m.n);
+        }
+    }
+    assert(all_on_chains(kw2, m.n, w2.cs)) by {
+        reveal(all_on_chains);
+        assert forall|o: nat| #[trigger] is_key(kw2, o) implies w2.cs[bucket_of(kkey(kw2, o), m.n)].contains(o) by {
+            assert(is_key(w.kw, o) && o != ko && kkey(kw2, o) == kkey(w.kw, o));
+            let j = bucket_of(kkey(w.kw, o), m.n);
+            lemma_bucket_range(kkey(w.kw, o), m.n);
+            assert(w.cs[j].contains(o));
+            let t = choose|t: int| 0 <= t < w.cs[j].len() && w.cs[j][t] == o;
+            if j == b {
+                assert(t != i);
+                let t1 = if t < i { t } else { t - 1 };
+                assert(rm(s, i)[t1] == o);
+            } else { assert(w2.cs[j][t] == o); }
+        }
+    }
+    assert(keys_distinct(kw2)) by {
+        reveal(keys_distinct);
+        assert forall|o1: nat, o2: nat| #[trigger] is_key(kw2, o1) && #[trigger] is_key(kw2, o2) && o1 != o2 implies kkey(kw2, o1) != kkey(kw2, o2) by {
+            assert(is_key(w.kw, o1) && is_key(w.kw, o2));
+            assert(kkey(kw2, o1) == kkey(w.kw, o1) && kkey(kw2, o2) == kkey(w.kw, o2));
+        }
+    }
+    assert(vals_linked(kw2, vw2, w2.vown)) by {
+        reveal(vals_linked);
+        assert forall|o: nat| #![trigger is_key(kw2, o)] is_key(kw2, o) implies is_val(vw2, kvoff(kw2, o)) && w2.vown[kvoff(kw2, o)] == o by {
+            assert(is_key(w.kw, o) && o != ko);
+            assert(kvoff(kw2, o) == kvoff(w.kw, o));
+            assert(is_val(w.vw, kvoff(w.kw, o)) && w.vown[kvoff(w.kw, o)] == o);
+            assert(kvoff(w.kw, o) != voff);
+        }
+        assert forall|v: nat| #![trigger is_val(vw2, v)] is_val(vw2, v) implies is_key(kw2, w2.vown[v]) && kvoff(kw2, w2.vown[v]) == v by {
+            assert(is_val(w.vw, v) && v != voff);
+            assert(is_key(w.kw, w.vown[v]) && kvoff(w.kw, w.vown[v]) == v);
+            assert(w.vown[v] != ko);
+            assert(is_key(kw2, w.vown[v]));
+        }
+    }
+    lemma_total_update(w.cs, b, rm(s, i));
+    lemma_total_ge(w.cs, b);
+    assert(map_ok(m2, w2));
+    assert forall|k2: Seq<u8>| #[trigger] lookup(w2, k2) == (if k2 == key { None } else { lookup(w, k2) }) by {
+        if k2 == key {
+            if has_key(w2, k2) {
+                let o = rec_of(w2, k2);
+                assert(is_key(kw2, o) && kkey(kw2, o) == k2);
+                assert(is_key(w.kw, o) && o != ko);
+                lemma_keys_distinct(w.kw, o, ko);
+            }
+        } else if has_key(w, k2) {
+            let o = rec_of(w, k2);
+            assert(is_key(w.kw, o) && kkey(w.kw, o) == k2);
+            assert(o != ko);
+            assert(is_key(kw2, o));
+            assert(kkey(kw2, o) == k2 && kvoff(kw2, o) == kvoff(w.kw, o));
+            lemma_lookup_found(m2, w2, k2, o);
+            lemma_val_link(w.kw, w.vw, w.vown, o);
+            assert(kvoff(w.kw, o) != voff);
+        } else {
+            if has_key(w2, k2) {
+                let o = rec_of(w2, k2);
+                assert(is_key(kw2, o) && kkey(kw2, o) == k2);
+                assert(is_key(w.kw, o));
+                assert(kkey(w.kw, o) == k2);
+            }
+        }
+    }
+}
 } // verus!
